@@ -33,7 +33,7 @@ func (t *Timer) Armed() bool {
 
 func Now() time.Time {
 	if x := sched.Active(); x != nil {
-		return x.Now
+		return x.TickNow()
 	}
 	return time.Now()
 }
